@@ -211,7 +211,7 @@ class Interp:
         lib_nx.install(self)
 
     # ------------------------------------------------------------------ obligations
-    def emit(self, st, kind, label, goal, expect="unsat"):
+    def emit(self, st, kind, label, goal, expect="unsat", focus=None):
         if st.pure:
             return
         # conjunctive goals are split into one obligation per conjunct (smaller queries, precise names)
@@ -230,7 +230,12 @@ class Interp:
             base = "%s/%s:%s%s" % (self.ob_prefix, kind, label, "" if len(parts) == 1 else ".%d" % j)
             n = self.ob_count.get(base, 0)
             self.ob_count[base] = n + 1
-            self.obligations.append(Obligation("%s#%d" % (base, n), kind, st.pc, g, st.trail, expect))
+            ob = Obligation("%s#%d" % (base, n), kind, st.pc, g, st.trail, expect)
+            if focus is not None:
+                # `using`: the contract names the earlier staged asserts this step follows from; all of them are hypotheses of the
+                # path already (each was proved before it was assumed), so a query over this subset is a sound, smaller variant
+                ob.focus = [f for f in focus if any(f.eq(h) for h in st.pc)]
+            self.obligations.append(ob)
 
     def feasible(self, st, extra=None):
         """cheap pruning: False only when z3 proves the path condition unsatisfiable"""
